@@ -797,3 +797,4 @@ META = {
 }
 
 META['explanation'] += ' ' + 'Further: no comparison operand in the guesser core is rounded/formatted/offset (exact-float discipline); lambda bodies are scanned as part of the enclosing function (heap ownership).'
+META['explanation'] += ' ' + 'Round 14: the terminal loaders store float(<field>) as read (no clamp, no line skipped by the value of its probability); a record handed to the queue or to a callback is a new object on every pass.'
